@@ -126,8 +126,16 @@ c09!(c09_entry_only, 1, [Flush, Dir]);
 /// whole directory are present, and every directory slot *in the destination* is all-zero or
 /// names a region that has completely arrived.
 fn run_c10<const K: usize>(ops: [Op; K], nslots: u32, fault: Option<usize>) {
-    let init = [0u8; N]; // a fresh file
-    let mut dest = ArrDest::<N>::new(init, 0);
+    run_c10_at(ops, nslots, fault, false)
+}
+
+/// `appending`: the destination cursor starts at a symbolic offset 0..8 (the dump is appended to existing
+/// content); all positions in the oracle are relative to that offset.
+fn run_c10_at<const K: usize>(ops: [Op; K], nslots: u32, fault: Option<usize>, appending: bool) {
+    let init = [0u8; N]; // a fresh file (or zero bytes before the dump)
+    let start: usize = if appending { kani::any() } else { 0 };
+    kani::assume(start <= 8);
+    let mut dest = ArrDest::<N>::new(init, start as u64);
     let at: usize;
     if let Some(k) = fault {
         // an error changes control flow (and builds an io::Error): its position is a shape
@@ -187,20 +195,26 @@ fn run_c10<const K: usize>(ops: [Op; K], nslots: u32, fault: Option<usize>) {
     }
     let dref = ds.verif_dest();
     let dir_end = 32 + 12 * nslots as usize;
-    // bytes received contiguously from offset 0 (appends are the only writes past the directory)
-    let received = dref.high_water;
+    // bytes received contiguously from the start offset (appends are the only writes past the directory)
+    let received = if dref.high_water > start { dref.high_water - start } else { 0 };
     if received >= dir_end {
-        assert_eq!(rd_u32(&dref.data, 0), MD_HEADER_SIGNATURE, "header present");
-        assert_eq!(rd_u32(&dref.data, 8), nslots, "stream count present");
-        assert_eq!(rd_u32(&dref.data, 12), 32, "directory rva present");
+        assert_eq!(rd_u32(&dref.data, start), MD_HEADER_SIGNATURE, "header present");
+        assert_eq!(rd_u32(&dref.data, start + 8), nslots, "stream count present");
+        assert_eq!(rd_u32(&dref.data, start + 12), 32, "directory rva present");
         let slot: usize = kani::any();
         kani::assume(slot < nslots as usize);
-        let e = 32 + 12 * slot;
+        let e = start + 32 + 12 * slot;
         let ty = rd_u32(&dref.data, e);
         let size = rd_u32(&dref.data, e + 4) as usize;
         let rva = rd_u32(&dref.data, e + 8) as usize;
         if ty != 0 || size != 0 || rva != 0 {
             assert!(rva + size <= received, "a directory entry in the destination refers only to bytes already there");
+            if size > 0 {
+                // ... and they ARE the stream's bytes (the image is append-only, so image[rva..] is final)
+                let i: usize = kani::any();
+                kani::assume(i < size);
+                assert_eq!(dref.data[start + rva + i], buf[rva + i], "the bytes an entry refers to are the stream's bytes");
+            }
         }
         kani::cover!(fault.is_some() || (ty != 0 && size > 0), "a non-empty entry reached the destination");
         kani::cover!(fault.is_some() || (ty == 0 && received > dir_end), "an unused entry while stream bytes are present");
@@ -221,6 +235,18 @@ macro_rules! c10 {
         }
     };
 }
+macro_rules! c10at {
+    ($name:ident, $slots:expr, [$($op:expr),*]) => {
+        #[kani::proof]
+        #[kani::unwind(18)]
+        fn $name() {
+            use Op::*;
+            run_c10_at([$($op),*], $slots, None, true);
+        }
+    };
+}
+c10at!(c10_crash_two_streams_appending, 2, [Flush, Grow(8), FlushDir, Grow(12), FlushDir]);
+c10at!(c10_crash_aux_flush_appending, 2, [Flush, Grow(8), FlushDir, Grow(4), Flush, Grow(8), FlushDir]);
 c10!(c10_crash_two_streams, 2, None, [Flush, Grow(8), FlushDir, Grow(12), FlushDir]);
 c10!(c10_crash_three_streams, 3, None, [Flush, Grow(4), FlushDir, Grow(8), FlushDir, Grow(12), FlushDir]);
 c10!(c10_crash_aux_flush, 2, None, [Flush, Grow(8), FlushDir, Grow(4), Flush, Grow(8), FlushDir]);
